@@ -7,5 +7,6 @@ PROPERTIES = {
     "C12": ["contracts.c12"],
     "C13": ["contracts.c13"],
     "C20": ["contracts.c20"],
+    "C11": ["contracts.c11"],
     "C14": ["contracts.c14", "contracts.c20", "contracts.c01"],
 }
